@@ -485,6 +485,7 @@ func (ps *propertyServer) Query(ctx context.Context, req *propertyv1.QueryReques
 		if property.deletedTime > 0 {
 			continue
 		}
+		resultProperty := property.Property
 		if len(req.TagProjection) > 0 {
 			var tags []*modelv1.Tag
 			for _, tag := range property.Tags {
@@ -495,9 +496,16 @@ func (ps *propertyServer) Query(ctx context.Context, req *propertyv1.QueryReques
 					}
 				}
 			}
-			property.Tags = tags
+			// Project on a copy: the original may be queued for read-repair,
+			// which must ship the whole property to the lagging replicas.
+			resultProperty = &propertyv1.Property{
+				Metadata:  property.Metadata,
+				Id:        property.Id,
+				Tags:      tags,
+				UpdatedAt: property.UpdatedAt,
+			}
 		}
-		result = append(result, property.Property)
+		result = append(result, resultProperty)
 	}
 
 	// Apply limit
